@@ -52,7 +52,7 @@ int snoopy_util_syslog_convertFacilityToInt (const char *facilityStr)
     facilityStrAdj = facilityStr;
 
     // If there is LOG_ prefix, loose it.
-    if ('_' == facilityStr[3]) {
+    if ((strlen(facilityStr) > 3) && ('_' == facilityStr[3])) {
         facilityStrAdj = &facilityStr[4];
     }
 
@@ -146,7 +146,7 @@ int snoopy_util_syslog_convertLevelToInt (const char *levelStr)
     levelStrAdj = levelStr;
 
     // If there is LOG_ prefix, loose it.
-    if ('_' == levelStr[3]) {
+    if ((strlen(levelStr) > 3) && ('_' == levelStr[3])) {
         levelStrAdj = &levelStr[4];
     }
 
